@@ -55,7 +55,7 @@ PROBES = ["package_object_dropped_before_streams_drained", "file_replaced_under_
           "parts_compressed_differently_read_alternately", "one_byte_chunks_while_control_requeried",
           "uncompressed_control_tar", "debian_binary_not_first", "defective_package_rejected",
           "two_streams_same_part_interleaved", "name_with_space", "nested_directory",
-          "pax_format", "extra_ar_member", "long_name", "empty_data_tar"]
+          "pax_format", "extra_ar_member", "long_name", "empty_data_tar", "query_for_a_name_that_is_almost_a_packed_one"]
 
 _STATE = {}
 
@@ -116,7 +116,7 @@ def generate(seed, run, tier):
     names = list(FNAMES)
     rw.shuffle(names)
     files = []
-    big = rs.random() < 0.12     # payloads beyond the decompressors' 8 KiB read chunk
+    big = rs.random() < 0.2     # payloads beyond the decompressors' 8 KiB read chunk
     for n in names[:rs.choice([0, 1, 2, 3, 5, 8])]:
         size = rw.choice([0, 1, 7, 100, 600, 2000])
         if big and rw.random() < 0.5:
@@ -138,7 +138,7 @@ def generate(seed, run, tier):
              # clients edit the objects that queries handed to them
              "edit_results": rs.random() < 0.5,
              # the client keeps only the file objects it got and lets the package object go
-             "drop_package_before_drain": rs.random() < 0.25}
+             "drop_package_before_drain": rs.random() < 0.35}
     steps = []
     nfiles = max(len(files), 1)
     w = {"debcontrol": 2, "scripts": 1, "md5sums": 2, "has": 3, "content": 4, "names": 1,
@@ -163,6 +163,8 @@ def generate(seed, run, tier):
             st["name"] = rq.choice(["control", "md5sums"] + SCRIPTS)
             st["sp"] = rq.randrange(3)
             st["stream"] = rq.random() < 0.3
+        elif k == "missing":
+            st["i"] = rq.randrange(nfiles)
         elif k in ("names", "iter_partial"):
             st["part"] = rq.choice(["data", "control"])
             st["k"] = rq.choice([1, 1, 2, 3])
@@ -505,6 +507,20 @@ def execute(case):
                 part = "data"
                 for sp in ("no/such/file", "./no/such/file", "/usr"[:1] + "nope"):
                     expect(si, op, _call(deb.data.has_file, sp), False, name=sp)
+                # names that are almost a packed file's name
+                packed = set(n_ for n_, _ in model["files"]) | set(model["dirs"])
+                if model["files"]:
+                    n_ = model["files"][st.get("i", 0) % len(model["files"])][0]
+                    for near in (n_ + "/", n_[:-1], n_ + "x", n_.swapcase(), n_ + " "):
+                        if near in packed or near.rstrip("/") in packed and near != n_ + "/" \
+                                or not near:
+                            continue
+                        for pre in ("", "./", "/"):
+                            expect(si, op, _call(deb.data.has_file, pre + near), False,
+                                   name=pre + near)
+                            expect(si, op, _call(lambda: (pre + near) in deb.data), False,
+                                   name=pre + near)
+                    out.probe("query_for_a_name_that_is_almost_a_packed_one")
             elif op == "open_other":
                 if not world.get("other") or len(others) >= 2:
                     continue
